@@ -370,7 +370,33 @@ class Enumerator:
             res.append(p)
         return res
 
+    def _desugar_boolop(self, st):
+        """`if A and B` / `if A or B` with a helper call among the operands -> nested ifs (same short-circuit order)"""
+        t = st.test
+        if not (self.inline and isinstance(t, ast.BoolOp)):
+            return None
+
+        def has_helper(x):
+            if isinstance(x, ast.UnaryOp) and isinstance(x.op, ast.Not):
+                x = x.operand
+            return self._helper(x) is not None
+        if not any(has_helper(v) for v in t.values):
+            return None
+        first, rest = t.values[0], t.values[1:]
+        rest_test = rest[0] if len(rest) == 1 else ast.copy_location(ast.BoolOp(op=t.op, values=rest), t)
+        if isinstance(t.op, ast.And):
+            inner = ast.copy_location(ast.If(test=rest_test, body=st.body, orelse=st.orelse), st)
+            outer = ast.copy_location(ast.If(test=first, body=[inner], orelse=st.orelse), st)
+        else:
+            inner = ast.copy_location(ast.If(test=rest_test, body=st.body, orelse=st.orelse), st)
+            outer = ast.copy_location(ast.If(test=first, body=st.body, orelse=[inner]), st)
+        ast.fix_missing_locations(outer)
+        return outer
+
     def _if(self, st):
+        d = self._desugar_boolop(st)
+        if d is not None:
+            return self._if(d)
         tp = self._test_paths(st.test) if self.inline else None
         if tp is not None:
             out = []
@@ -629,7 +655,73 @@ def replay(prog, func, path, env=None, keep_env=False, evalr=None, prune=True):
             recs.append(Rec(e, [], env=snap))
         else:  # jump, loopcut, finally, def
             recs.append(Rec(e, [], env=snap))
-    return Run(path, recs, feasible, ev)
+    run = Run(path, recs, feasible, ev)
+    if feasible:
+        _resolve_ife(run)
+    return run
+
+
+def _stable(s):
+    """a Sym that cannot change along a path: built from parameters, constants and pure constructors only"""
+    from .sym import walk
+    for x in walk(s):
+        if x[0] in ("attr", "sub") and x[1] == ("self",):
+            return False
+        if x[0] in ("sub", "attr") and x[1][0] in ("attr", "sub") and _rooted_self(x):
+            return False
+        if x[0] == "call" and x[1][0] == "attr" and x[1][1] == ("self",):
+            return False
+    return True
+
+
+def _rooted_self(x):
+    while x[0] in ("attr", "sub"):
+        x = x[1]
+    return x == ("self",)
+
+
+def _resolve_ife(run):
+    """(a if c else b) is replaced by a / b where the path's own (stable) guards decide c: a value chosen by a
+    conditional expression and a later branch on the same condition are the same decision"""
+    from .sym import walk
+    from . import guards as G
+    has = False
+    for r in run.recs:
+        for e in r.effects:
+            for v in (e.target, e.value):
+                if isinstance(v, tuple) and any(x[0] == "ife" for x in walk(v)):
+                    has = True
+        if r.cond is not None and any(x[0] == "ife" for x in walk(r.cond)):
+            has = True
+    if not has:
+        return
+    facts = [(g, p) for g, p in run.guards() if _stable(g)]
+    if not facts:
+        return
+    F = G.conj(facts)
+
+    def fn(x):
+        if x[0] == "ife" and _stable(x[1]):
+            try:
+                if G.implies(F, x[1])[0]:
+                    return x[2]
+                if G.implies(F, mk_not(x[1]))[0]:
+                    return x[3]
+            except AnalysisError:
+                return None
+        return None
+    for r in run.recs:
+        for e in r.effects:
+            if isinstance(e.target, tuple):
+                e.target = G.renorm(G.subst(e.target, fn))
+            if isinstance(e.value, tuple):
+                e.value = G.renorm(G.subst(e.value, fn))
+        if r.cond is not None and any(x[0] == "ife" for x in walk(r.cond)):
+            r.cond = G.renorm(G.subst(r.cond, fn))
+    for k in list(run.evalr.env):
+        v = run.evalr.env[k]
+        if isinstance(v, tuple) and any(x[0] == "ife" for x in walk(v)):
+            run.evalr.env[k] = G.renorm(G.subst(v, fn))
 
 
 def runs_of(prog, func, unroll=1, may_raise=None, keep_env=False, body=None, env=None, evalr=None,
